@@ -320,6 +320,38 @@ def emit(ex, corners) -> str:
     return "\n".join(L) + "\n"
 
 
+def parse_committed(text: str):
+    """Read DarsiaGen/QuadratureTables.lean (as emitted by `emit`) back into the extraction dict. Used only when
+    the source has left the accepted AST subset: the committed table is then validated against the running code."""
+    import re
+
+    inv = {v: k for k, v in ERRMAP.items()}
+    mx = {int(a): int(b) for a, b in re.findall(r"^  \| (\d+) => some (\d+)$", text, re.M)}
+    rules = {}
+    ns = {"R": lambda n, d=1: ("rat", Fraction(n, d)), "A": lambda a, b: ("add", a, b), "M": lambda a, b: ("mul", a, b),
+          "D": lambda a, b: ("div", a, b), "N": lambda a: ("neg", a), "S": lambda a: ("sqrt", a), "__builtins__": {}}
+    for dim, o, body in re.findall(r"^def rule_(\d+)_(\d+) : Rule :=\n(.*?)⟩$", text, re.M | re.S):
+        b = body.strip()
+        assert b.startswith("⟨")
+        b = b[1:]
+        b = re.sub(r"\(\.rat \(\((-?\d+) : Rat\) / (\d+)\)\)", r"R(\1,\2)", b)
+        b = re.sub(r"\(\.rat (\d+)\)", r"R(\1)", b)
+        for name, fn in (("add", "A"), ("mul", "M"), ("div", "D"), ("neg", "N"), ("sqrt", "S")):
+            b = b.replace(f"(.{name} ", f"{fn}(")
+        b = re.sub(r"\) (?=[A-Z]\()", "), ", b)
+        _, pts, wts = eval("(" + b + ")", ns)  # noqa: S307 - restricted namespace, our own generated file
+        rules[(int(dim), int(o))] = (pts, wts)
+    default = None
+    for a, b, cls in re.findall(r"^  \| (\d+|_), (\d+|_) => \.error \.(\w+)$", text, re.M):
+        if a == "_":
+            default = inv.get(cls, "Other")
+        else:
+            rules[(int(a), int(b))] = inv.get(cls, "Other")
+    if default is None or not rules:
+        raise ExtractError("committed table unreadable")
+    return dict(rules=rules, max=mx, default=default)
+
+
 # ---------------------------------------------------------------------------
 # calling the implementation
 
@@ -552,12 +584,26 @@ def run(ctx):
     try:
         ex = extract(src.read_text())
         ctx.cov["g2_extraction"] = {"branches": len(ex["rules"]), "max_alias": {str(k): v for k, v in ex["max"].items()}}
+        fallback = False
     except (ExtractError, OSError, SyntaxError, AttributeError, IndexError) as e:
-        ex = None
-        ctx.mark("TIE-BROKEN", {"g2": "gauss left the accepted AST subset", "error": str(e)[:300]})
+        # DESIGN 4a: the source left the accepted subset (e.g. a harmless refactor). Use the committed table only if it
+        # still is, numerically, what the running code returns (same accepted set, lengths, order, every value to 1e-15).
+        fallback = True
+        try:
+            from ..lib.core import LEAN
+
+            ex = parse_committed((LEAN / "DarsiaGen" / "QuadratureTables.lean").read_text())
+        except Exception as e2:  # noqa: BLE001
+            ex = None
+            ctx.mark("TIE-BROKEN", {"g2": "gauss left the accepted AST subset and no committed table is readable", "error": str(e)[:200], "error2": str(e2)[:200]})
+        ctx.notes.append(f"G2 extraction unavailable: {str(e)[:200]}")
     if ex is not None:
-        validate_extraction(ctx, d, ex)
-        ctx.write_gen("QuadratureTables", emit(ex, tabulate_corners(d)))
+        ok = validate_extraction(ctx, d, ex)
+        if fallback:
+            ctx.cov["tie"] = "G2-unavailable, validated-against-running-code" if ok else "G2-unavailable, committed table does not match the running code"
+        else:
+            ctx.cov["tie"] = "G2 extraction from the source, validated against the running gauss()"
+            ctx.write_gen("QuadratureTables", emit(ex, tabulate_corners(d)))
     ctx.prove("C15")
     if ex is not None:
         # which obligation fails (diagnostics; directs nothing - the oracle is exhaustive anyway)
